@@ -376,5 +376,241 @@ class RQ2H(Harness):
         return RQ2Exec(cfg)
 
 
-HARNESSES = {'iq': IQH, 'iq_renew': RenewH, 'iq_mp': IQMPH, 'responsive': RQH, 'responsive2': RQ2H}
-PLAN = {'quick': ['iq', 'iq_mp', 'responsive', 'responsive2'], 'thorough': ['iq', 'iq_mp', 'responsive', 'responsive2']}
+class EagerExec(Exec):
+    """Long-lived consumers: each consumer thread iterates round after round and does NOT wait for renew() before it starts
+    over - its early pass is empty (the queue is still marked exhausted) or is already a pass of the next round.  The main
+    thread calls renew() once every consumer has finished the round, concurrently with these early passes."""
+
+    def __init__(self, cfg):
+        self.cfg = cfg
+
+    def body(self):
+        from mpservice.queue import IterableQueue
+        cfg = self.cfg
+        s = sched.S()
+        m, n, R = cfg['m'], cfg['n'], cfg['rounds']
+        iq = IterableQueue(queue.Queue(cfg['maxsize']), num_suppliers=m)
+        got = [[] for _ in range(R)]
+        puts = [[] for _ in range(R)]
+        finished = [[False] * n for _ in range(R)]
+        renewed = [False] * R
+        errs = []
+
+        def supply(k, rnd):
+            try:
+                for j in range(cfg['items']):
+                    x = (rnd, k, j)
+                    puts[rnd].append(x)
+                    iq.put(x)
+                iq.put_end()
+            except BaseException as e:
+                errs.append(('supplier', type(e).__name__, str(e)[:80]))
+
+        def consume(k):
+            try:
+                for rnd in range(R):
+                    for x in iq:
+                        got[rnd].append(x)
+                    finished[rnd][k] = True
+                    if rnd < R - 1:
+                        for x in iq:                    # the early pass
+                            got[rnd + 1].append(x)
+                        s.block(lambda: renewed[rnd], None, on='wait-renew')
+            except BaseException as e:
+                if isinstance(e, sched.Abort):
+                    raise
+                errs.append(('consumer', type(e).__name__, str(e)[:80]))
+
+        cts = [threading.Thread(target=consume, args=(k,), name=f'con{chr(97 + k)}') for k in range(n)]
+        for t in cts:
+            t.start()
+        renew_err = None
+        for rnd in range(R):
+            sts = [threading.Thread(target=supply, args=(k, rnd), name=f'sup{chr(97 + k)}') for k in range(m)]
+            for t in sts:
+                t.start()
+            for t in sts:
+                t.join()
+            s.block(lambda: all(finished[rnd]) or errs, None, on='wait-round')
+            if rnd < R - 1:
+                try:
+                    iq.renew()
+                except Exception as e:
+                    renew_err = f'{type(e).__name__}: {e}'
+                renewed[rnd] = True
+        for t in cts:
+            t.join()
+        leftover = []
+        try:
+            while True:
+                leftover.append(iq._q.get(block=False))
+        except queue.Empty:
+            pass
+        return [sorted(p) for p in puts], [sorted(g, key=repr) for g in got], errs, renew_err, leftover
+
+    def verdict(self, r):
+        v = default_verdict(r)
+        if v:
+            return v
+        puts, got, errs, renew_err, leftover = r.value
+        if errs:
+            return (f'party-raised:{errs[0][0]}:{errs[0][1]}', repr(errs))
+        if renew_err:
+            return ('renew-failed', renew_err)
+        for i, (p, g) in enumerate(zip(puts, got)):
+            if any(x is None for x in g):
+                return ('none-delivered', f'round {i}: {g}')
+            if g != p:
+                return ('wrong-items', f'round {i}: put {p}, received {g}; all rounds: {got}')
+        if leftover != [None]:
+            return ('wrong-final-queue', f'queue holds {leftover} after the last round, expected exactly one end marker')
+        return None
+
+
+class EagerH(IQH):
+    name = 'iq_eager'
+
+    def configs(self, tier):
+        quick = tier == 'quick'
+        out = []
+        for m, n, items, d in ((1, 1, 1, 2), (1, 2, 1, 2), (2, 1, 1, 2), (2, 2, 1, 1)):
+            if not quick:
+                d += 1
+            out.append(dict(m=m, n=n, items=items, maxsize=0, rounds=2, bound=d, cap=80000 if quick else 800000))
+        out.append(dict(m=1, n=1, items=1, maxsize=0, rounds=3, bound=1 if quick else 2, cap=80000 if quick else 800000))
+        return out
+
+    def new(self, cfg):
+        return EagerExec(cfg)
+
+
+class SeqExec(Exec):
+    """Every sequence of single-threaded operations {put by supplier s, put_end by s, next(), renew(), stop here} of length
+    <= depth that the class documents as legal, chosen step by step through the explorer's (free) choice points, against a
+    reference model (a list per round).  Legal: put_end once per supplier and round; next() when an item is available or all
+    suppliers have ended (else it would block); renew() once after a next() has reported the end of the round; puts for the
+    NEXT round after that report and before renew() (documented by put_end's docstring: they must stay inaccessible until
+    renew()).  A late next() on an exhausted queue must report the end again and change nothing.  After the chosen prefix the
+    round is completed (remaining put_end, drain), renew() is called, and one more round must deliver exactly the early
+    items; finally the queue must hold exactly one end marker."""
+
+    def __init__(self, cfg):
+        self.cfg = cfg
+
+    def body(self):
+        from mpservice.queue import IterableQueue
+        cfg = self.cfg
+        s = sched.S()
+        m = cfg['m']
+        iq = IterableQueue(queue.Queue(), num_suppliers=m)
+        cur, early, ended, exhausted = [], [], set(), False
+        counter = 0
+        log = []
+
+        def nxt():
+            try:
+                return ('item', iq.__next__())
+            except StopIteration:
+                return ('end',)
+
+        for _ in range(cfg['depth']):
+            ops = []
+            for k in range(m):
+                if k not in ended or exhausted:
+                    ops.append(('put', k))
+                if k not in ended:
+                    ops.append(('end', k))
+            if cur or len(ended) == m:
+                ops.append(('next',))
+            if exhausted:
+                ops.append(('renew',))
+            ops.append(('stop',))
+            op = ops[s.choose(len(ops), 'op')]
+            log.append(op)
+            if op[0] == 'stop':
+                break
+            if op[0] == 'put':
+                counter += 1
+                iq.put(counter)
+                (early if exhausted else cur).append(counter)
+            elif op[0] == 'end':
+                iq.put_end()
+                ended.add(op[1])
+            elif op[0] == 'next':
+                r = nxt()
+                want = ('item', cur.pop(0)) if cur else ('end',)
+                if not cur and want == ('end',):
+                    exhausted = True
+                if r != want:
+                    return log, ('wrong-next', f'after {log}: next() gave {r}, the reference {want}')
+            elif op[0] == 'renew':
+                try:
+                    iq.renew()
+                except Exception as e:
+                    return log, ('renew-failed', f'after {log}: {type(e).__name__}: {e}')
+                cur, early, ended, exhausted = early, [], set(), False
+        # completion: finish this round, renew, run one more round
+        for rnd in range(2):
+            for k in range(m):
+                if k not in ended:
+                    iq.put_end()
+                    ended.add(k)
+            gotten = []
+            while True:
+                r = nxt()
+                if r == ('end',):
+                    break
+                gotten.append(r[1])
+                if len(gotten) > 50:
+                    return log, ('endless-round', f'after {log}')
+            if gotten != cur:
+                return log, ('wrong-items-at-completion', f'after {log}: completing round +{rnd} delivered {gotten}, the '
+                             f'reference has {cur}')
+            if nxt() != ('end',):
+                return log, ('late-next-not-end', f'after {log}')
+            if rnd == 0:
+                try:
+                    iq.renew()
+                except Exception as e:
+                    return log, ('renew-failed', f'after {log} and completing the round: {type(e).__name__}: {e}')
+                cur, early, ended = early, [], set()
+        leftover = []
+        try:
+            while True:
+                leftover.append(iq._q.get(block=False))
+        except queue.Empty:
+            pass
+        if leftover != [None]:
+            return log, ('wrong-final-queue', f'after {log}: queue holds {leftover}')
+        return log, None
+
+    def observe(self, r):
+        if r.error is not None:
+            return r.error[0]
+        if r.exc is not None:
+            return 'exc:' + type(r.exc).__name__
+        return repr(r.value[0])[:300]
+
+    def verdict(self, r):
+        v = default_verdict(r)
+        if v:
+            return v
+        return r.value[1]
+
+
+class SeqH(IQH):
+    name = 'iq_seq'
+
+    def configs(self, tier):
+        quick = tier == 'quick'
+        return [dict(m=1, depth=9 if quick else 11, bound=0, cap=1000000),
+                dict(m=2, depth=7 if quick else 9, bound=0, cap=1000000)]
+
+    def new(self, cfg):
+        return SeqExec(cfg)
+
+
+HARNESSES = {'iq': IQH, 'iq_renew': RenewH, 'iq_mp': IQMPH, 'responsive': RQH, 'responsive2': RQ2H, 'iq_eager': EagerH,
+             'iq_seq': SeqH}
+PLAN = {'quick': ['iq', 'iq_eager', 'iq_seq', 'iq_mp', 'responsive', 'responsive2'],
+        'thorough': ['iq', 'iq_eager', 'iq_seq', 'iq_mp', 'responsive', 'responsive2']}
